@@ -800,7 +800,18 @@ class Interp:
                 self.assign(a, b)
         elif isinstance(t, ast.Subscript):
             base = self.eval(t.value)
-            if isinstance(base, list):
+            mask = None
+            if isinstance(base, list) and self.externals.get("__elementwise__") and not isinstance(t.slice, (ast.Slice, ast.Tuple, ast.Constant)):
+                m_ = self.eval(t.slice)
+                if isinstance(m_, list) and len(m_) == len(base) and all(isinstance(x, bool) for x in m_):
+                    mask = m_
+            if mask is not None:
+                # x[boolean mask] = scalar / sequence of as many values as the mask selects
+                vals = iter(v) if isinstance(v, (list, tuple)) else None
+                for i_, on in enumerate(mask):
+                    if on:
+                        base[i_] = next(vals) if vals is not None else v
+            elif isinstance(base, list):
                 _nd_set(base, self._index_tuple(t.slice), v)
             elif isinstance(base, dict):
                 base[self.eval(t.slice)] = v
@@ -869,6 +880,10 @@ class Interp:
             return (a | b) if isinstance(op, ast.BitOr) else ((a & b) if isinstance(op, ast.BitAnd) else (a ^ b))
         if self.externals.get("__elementwise__"):
             from .listnp import T as _T, arith as _arith
+            if isinstance(op, (ast.BitOr, ast.BitAnd, ast.BitXor)) and (isinstance(a, list) or isinstance(b, list)):
+                from .listnp import _flatten, _zip, wrap
+                if all(isinstance(x, bool) for x in (_flatten(a) if isinstance(a, list) else [a]) + (_flatten(b) if isinstance(b, list) else [b])):
+                    return wrap(_zip(lambda x, y: (x | y) if isinstance(op, ast.BitOr) else ((x & y) if isinstance(op, ast.BitAnd) else (x ^ y)), a, b))
             if isinstance(a, _T) or isinstance(b, _T):
                 sym = {ast.Add: "+", ast.Sub: "-", ast.Mult: "*", ast.Div: "/", ast.Pow: "**"}.get(type(op))
                 if sym is None:
@@ -953,6 +968,8 @@ class Interp:
             if self.externals.get("__strict__") and callable(self.externals.get(e.id)):
                 ext_f = self.externals[e.id]
                 return PyFunc(lambda a, k, ext_f=ext_f: ext_f(a, k), e.id)  # a modelled function / class used as a value
+            if e.id in ("float", "int", "bool", "complex"):
+                return e.id  # a builtin scalar type used as a VALUE (dtype=float): stands for the dtype of that name
             raise Undecided(f"unknown name {e.id}")
         if isinstance(e, ast.Attribute):
             if isinstance(e.value, ast.Name) and e.value.id == "self":
